@@ -196,58 +196,41 @@ func (g *genCtx) encodeParams(keys []Key, role Role) []Param {
 		}
 		leaves = append(leaves, p)
 	}
-	// positional where possible, otherwise grouped into one or two objects;
-	// an object may hold a nested object with one or several fields
-	type pnode struct {
-		leaf   *Param
-		fields []*pnode
-	}
-	var top []*pnode
-	var cur, inner *pnode
-	for i := range leaves {
-		p := &leaves[i]
-		inObj := needObj[i] || (g.ft.Objects && g.r.P(0.3))
-		if !inObj {
-			top = append(top, &pnode{leaf: p})
-			cur, inner = nil, nil
-			continue
-		}
-		if cur == nil || g.r.P(0.2) {
-			cur, inner = &pnode{}, nil
-			top = append(top, cur)
-		}
-		switch {
-		case inner != nil && g.r.P(0.5):
-			inner.fields = append(inner.fields, &pnode{leaf: p})
-		case g.r.P(0.15):
-			// nest one level deeper
-			inner = &pnode{fields: []*pnode{{leaf: p}}}
-			cur.fields = append(cur.fields, inner)
-		default:
-			cur.fields = append(cur.fields, &pnode{leaf: p})
-			if g.r.P(0.5) {
-				inner = nil
+	// positional where possible, otherwise runs of leaves grouped into
+	// parameter objects; inside an object, runs of fields may again form a
+	// nested (possibly embedded) object, to any depth up to 4, with fields
+	// before and after it
+	var nest func(ls []Param, depth int) []Param
+	nest = func(ls []Param, depth int) []Param {
+		var out []Param
+		for i := 0; i < len(ls); {
+			if depth < 4 && g.r.P(0.18) {
+				n := g.r.Range(1, 3)
+				if n > len(ls)-i {
+					n = len(ls) - i
+				}
+				out = append(out, Param{Kind: PObj, Embed: g.ft.EmbedObjs && g.r.P(0.4), Fields: nest(ls[i:i+n], depth+1)})
+				i += n
+				continue
 			}
+			out = append(out, ls[i])
+			i++
 		}
-	}
-	var conv func(n *pnode, nested bool) Param
-	conv = func(n *pnode, nested bool) Param {
-		if n.leaf != nil {
-			return *n.leaf
-		}
-		o := Param{Kind: PObj, Embed: nested && g.ft.EmbedObjs && g.r.P(0.4)}
-		for _, f := range n.fields {
-			o.Fields = append(o.Fields, conv(f, true))
-		}
-		for nested && g.r.P(0.2) {
-			// one more level of nesting (In -> In -> In -> field)
-			o = Param{Kind: PObj, Fields: []Param{o}, Embed: g.ft.EmbedObjs && g.r.P(0.3)}
-		}
-		return o
+		return out
 	}
 	var out []Param
-	for _, n := range top {
-		out = append(out, conv(n, false))
+	for i := 0; i < len(leaves); {
+		if !needObj[i] && !(g.ft.Objects && g.r.P(0.3)) {
+			out = append(out, leaves[i])
+			i++
+			continue
+		}
+		j := i + 1
+		for j < len(leaves) && g.r.P(0.8) && (needObj[j] || g.ft.Objects) {
+			j++
+		}
+		out = append(out, Param{Kind: PObj, Fields: nest(leaves[i:j], 1)})
+		i = j
 	}
 	return out
 }
@@ -353,6 +336,7 @@ func (g *genCtx) genCtor(s int) *Func {
 	if f.HasErr && g.r.P(ft.PErrFirst/2) {
 		f.ErrExtra = g.r.Range(1, 2) // two error results: the other one stays nil
 	}
+	f.ErrLike = f.HasErr && g.r.P(ft.PErrFirst/2)
 	f.Reenter = g.r.P(ft.PReenter)
 	if f.Reenter {
 		g.reenterShape(f, s)
@@ -393,6 +377,7 @@ func (g *genCtx) genInvoke(s int) *Func {
 		f.Params = oneObject(f.Params)
 	}
 	f.HasErr = g.r.P(0.5)
+	f.ErrLike = f.HasErr && g.r.P(g.ft.PErrFirst/2)
 	f.Variadic = g.ft.Variadic && g.r.P(g.ft.PVariadic)
 	return f
 }
@@ -494,6 +479,7 @@ func (g *genCtx) genDecorator(s int) *Func {
 	if f.HasErr && g.r.P(g.ft.PErrFirst/2) {
 		f.ErrExtra = g.r.Range(1, 2)
 	}
+	f.ErrLike = f.HasErr && g.r.P(g.ft.PErrFirst/2)
 	f.Callback = g.ft.Callbacks && g.r.P(0.5)
 	f.Variadic = g.ft.Variadic && g.r.P(g.ft.PVariadic)
 	if g.r.P(g.ft.PReenter) {
@@ -827,6 +813,9 @@ func BaseFeat(r *Rng, thorough bool) Feat {
 		// keys that differ only in blanks are different keys
 		if len(ft.Names) > 0 {
 			ft.Names = append(ft.Names, ft.Names[0]+" ")
+			if r.P(0.5) {
+				ft.Names = append(ft.Names, ft.Names[0]+",x") // a comma is an ordinary character of a name
+			}
 		}
 		if len(ft.Groups) > 0 {
 			ft.Groups = append(ft.Groups, ft.Groups[0]+" ")
